@@ -168,3 +168,18 @@ Definition chart_cap_denotes (init : Q) (l : list bcs) (dc : dchart) (c : smchar
   header_match 0 dc c = true
   /\ forall k, exists a', Permutation (dnotes_of k (d_notes dc)) a' /\ Forall2 (cap_note_rel init l) a' (chart_list c k).
 End Dom.
+
+(* the extra condition for reading a written file back (Props/C03.v : C03_sm_write_read_back): the beats of the tempo
+   changes lie on the READER's 1/48 grid - the reach of the reading theorem C02, whose domain c02_domb asks for it; not a
+   loss of the implementation (C03_read_back_guard_not_necessary) - stated on the mapset, with beats >= 0 and distinct *)
+Definition readback_guard_gen (cf : smconf) (s : smset) : bool :=
+  match s_maps s with
+  | [] => false
+  | c0 :: _ =>
+      match tempo_script_of cf (c_bpms c0) with
+      | None => false
+      | Some (init, l) =>
+          let bs := map (fun r : Q * Q * Q => spec_beat init l (fst (fst r))) (c_bpms c0) in
+          forallb (fun b => on_grid48 b && Qle_bool 0 b) bs && distinct_q bs
+      end
+  end.
